@@ -98,6 +98,7 @@ type Path struct {
 	nerr     int
 	njv      int
 	eqDepth  int
+	curIns   ssa.Instruction
 	globals  map[*ssa.Global]*Object
 	sentinels map[string]Value
 	inputs   []*Input
